@@ -849,6 +849,15 @@ class Exec:
                 if isinstance(tgt.slice, ast.Slice):
                     sl = tgt.slice
                     if sl.lower is None and sl.upper is None and \
+                            isinstance(o, TokList) and \
+                            isinstance(v, TokList):
+                        # x[:] = value: in-place replacement (identity kept)
+                        o.segs[:] = list(v.segs)
+                        st1.mut += 1
+                        st1.writes.append((o.lid, '$list'))
+                        yield st1
+                        continue
+                    if sl.lower is None and sl.upper is None and \
                             isinstance(o, SSeq):
                         # x[:] = value  -- in-place replacement of a list
                         # held by name: model as rebinding through alias map
@@ -1793,6 +1802,9 @@ class Exec:
         if isinstance(o, TokList):
             if not is_int(i):
                 raise Unsupported('non-int index at %d' % line)
+            hook = self.contracts.list_index_hook
+            if hook:
+                hook(self, st, o, i, line)
             return self.list_get(o, i, st, line)
         if isinstance(o, tuple):
             if isinstance(i, int):
@@ -1940,6 +1952,8 @@ class StrSet:
         return self._nonempty
 
     def member(self, ex, st, x):
+        if x is None:
+            return None in self.known
         if isinstance(x, tuple):
             memo = self.__dict__.setdefault('_tuples', {})
             key = tuple((lift_str(e).arr.sexpr(), str(lift_str(e).ln))
@@ -1961,7 +1975,8 @@ class StrSet:
                                      zint(x.ln) <= self.maxlen)))
         # consistency with the known members / non-members
         for k in self.known:
-            st.assume(Implies(sym.seq_eq(x, k), b))
+            if k is not None:
+                st.assume(Implies(sym.seq_eq(x, k), b))
         for k in self.known_not:
             st.assume(Implies(sym.seq_eq(x, k), Not(b)))
         return b
